@@ -131,6 +131,11 @@ def check_history(acc: Acc, case):
     elif k == "short":
         probe_script = [["answer", 1]]
         probe_cmd = ["read", 35100, 1]
+    elif k.startswith("broken:"):
+        # the peer drops the connection (TCP) / an ICMP error arrives (UDP) while the first transmission is in flight, then silence:
+        # the broken attempt is one of the R+1, wherever the connection came from (fresh, kept alive by an earlier request)
+        d = int(k.split(":")[1])
+        probe_script = [["eof", d] if transport == "tcp" else ["recverr", d, "ECONNREFUSED"]]
     elif k.startswith("noisy:"):
         _, d1, d2 = k.split(":")     # every transmission is answered by two invalid datagrams: the budget is still R+1 transmissions
         probe_script = [["pieces", [["garbage", int(d1)], ["garbage", int(d2)]]]] * (R + 2)
@@ -172,6 +177,17 @@ def check_history(acc: Acc, case):
             fails.append(("C05|%s|probe-outcome" % cfg, "silent probe ended with %s" % probe.kind, case))
         if any(not netcase.same_request(transport, probe.tx[0][2], e[2]) for e in probe.tx):
             fails.append(("C05|%s|probe-not-identical" % cfg, "retransmissions of the probe differ", case))
+    elif isinstance(k, str) and k.startswith("broken:"):
+        if len(times) > R + 1:
+            fails.append(("C05|%s|budget-exceeded" % cfg,
+                          "probe whose first transmission was cut off (%s) after prefix %s got %d transmissions at %s, "
+                          "configured retries=%d" % (k, prefix, len(times), times, R), case))
+        elif probe.kind == "ok":
+            fails.append(("C05|%s|probe-outcome" % cfg, "probe that was never answered ended with a response", case))
+        elif dur > (R + 1) * T + EPS:
+            fails.append(("C05|%s|failure-time" % cfg, "probe whose first transmission was cut off (%s) after prefix %s failed after %r, "
+                          "more than (retries+1) x timeout = %r" % (k, prefix, dur, (R + 1) * T), case))
+        acc.cls("broken-probe|%s|%d-transmissions" % (cfg, len(times)))
     elif isinstance(k, str) and k.startswith("noisy:"):
         if len(times) > R + 1:
             fails.append(("C05|%s|budget-exceeded" % cfg,
@@ -215,7 +231,7 @@ def enum_job(job):
     names = list(outcome_classes(transport)) + ["close", "newloop"]
     for n in (0, 1, 2):
         for prefix in itertools.product(names, repeat=n):
-            for k in (None, R, "slow:15", "slow:9", "fragslow:3:14", "short", "noisy:2:3"):
+            for k in (None, R, "slow:15", "slow:9", "fragslow:3:14", "short", "noisy:2:3", "broken:4"):
                 case = {"transport": transport, "keep": keep, "T": T, "R": R, "prefix": list(prefix), "gap": gap,
                         "k": k, "latency": 0}
                 _apply(acc, case)
@@ -260,7 +276,8 @@ def hyp_job(job):
                 "gap": draw(st.one_of(st.just(0), st.just("idle"), st.integers(1, 40))),
                 "k": draw(st.one_of(st.none(), st.integers(0, R), st.integers(0, 15).map(lambda d: "slow:%d" % d), st.just("short"),
                                     st.tuples(st.integers(0, 15), st.integers(0, 15)).map(lambda t: "noisy:%d:%d" % (min(t), max(t))),
-                                    st.tuples(st.integers(0, 15), st.integers(0, 15)).map(lambda t: "fragslow:%d:%d" % (min(t), max(t))))),
+                                    st.tuples(st.integers(0, 15), st.integers(0, 15)).map(lambda t: "fragslow:%d:%d" % (min(t), max(t))),
+                                    st.integers(0, 15).map(lambda d: "broken:%d" % d))),
                 "latency": draw(st.integers(0, 3)), "api": draw(st.booleans())}
 
     def body(case):
